@@ -510,6 +510,23 @@ func c07Structured(rt *rapid.T) {
 			alts = append(alts, h)
 		}
 	}
+	// the CRC-24 zeroed or all ones ("not set"), alone and together with a flip of the self-contained flag
+	for _, fill := range []byte{0x00, 0xff} {
+		for _, flag := range []bool{false, true} {
+			h := append([]byte{}, b.enc[:b.hdrLen]...)
+			for i := crcAt; i < b.hdrLen; i++ {
+				h[i] = fill
+			}
+			if flag {
+				flagBit := 17 // uncompressed header: bit 17; compressed header: bit 34
+				if b.lz {
+					flagBit = 34
+				}
+				h[flagBit/8] ^= 1 << uint(flagBit%8)
+			}
+			alts = append(alts, h)
+		}
+	}
 	for _, h := range alts {
 		var pattern uint64
 		for i := 0; i < b.hdrLen; i++ {
